@@ -44,6 +44,8 @@ def main(argv):
             ctx.violation("same_call_differs:" + f["path"].split("(")[0].strip().replace(" ", "_"), {"gen": "shadow", "ddl": f["ddl"], "ctor": f["ctor"], "run_kw": f["run_kw"]},
                           {"path": f["path"], "observed": short(f["observed"], 300), "plain_call": short(f["first_call"], 300)})
         ctx.obs["shadow_repeats_of_parse_calls"] += vrun.SHADOW["n"]
+        if vrun.SHADOW.get("bystander_n"):
+            ctx.obs["shadow_runs_with_a_bystander_object"] += vrun.SHADOW["bystander_n"]
         ctx.evaluated(2 * vrun.SHADOW["n"])
         res.update(ctx.result())
         st = hooks.STATE
